@@ -188,6 +188,9 @@ class Ext:
             for k, it in enumerate(t.items):
                 conj.append(self.same(ex, self.from_box(ex, z3.Select(s.arr, k), s.elem), it))
             return VBool(z3.And(*conj))
+        if (isinstance(a, VObj) and isinstance(b, VStr)) or (isinstance(a, VStr) and isinstance(b, VObj)):
+            self.use(ex, "x == 'str value': true iff x is that str value (no foreign __eq__)")
+            return VBool(ex.box(a) == ex.box(b))
         if isinstance(a, VObj) or isinstance(b, VObj):
             self.use(ex, "==: uninterpreted py_eq on objects of unknown class")
             return VBool(sym.py_eq(ex.box(a), ex.box(b)))
